@@ -22,14 +22,15 @@ def lim(o):
     return "" if o == [] else str(o[0])
 
 
-def items_text(items, scale=None):
+def items_text(items, scale=None, short=False):
     parts = []
     for lo, hi in items:
         def spell(o):
             if o == []:
                 return ""
             if scale:
-                return "%.2f" % (decimal.Decimal(o[0]) / scale)
+                text = "%.2f" % (decimal.Decimal(o[0]) / scale)
+                return text.rstrip("0").rstrip(".") if short else text   # (1000.00 is also written 1000)
             return str(o[0])
         if lo == hi and lo != []:
             parts.append(spell(lo))
@@ -232,7 +233,19 @@ def job_decimal(vec):
     problems = []
     ds, ts = vec["conv"]
     cell = "".join({"tab": "\t", "arabic0": "\u0660"}.get(char, char) for char in vec["cell"])
-    rule = items_text(vec["rule"], scale=100)
+    problems_of_both = []
+    for short in (False, True):
+        # the limits of the rule with two fractional digits, or as short as they can be written: a cell may have more
+        # fractional digits than the rule it is compared with
+        problems_of_both.extend(_job_decimal_rule(vec, cell, items_text(vec["rule"], scale=100, short=short)))
+        if problems_of_both or vec["rule"] == []:
+            break
+    return problems_of_both
+
+
+def _job_decimal_rule(vec, cell, rule):
+    problems = []
+    ds, ts = vec["conv"]
     expected = vec["expected"]
     variants = [("delimited", {"decimal_separator": ds, "thousands_separator": ts}),
                 ("fixed", {"decimal_separator": ds, "thousands_separator": ts})]
